@@ -726,6 +726,16 @@ func (g *vGen) volume() []*vEntry {
 	line(b, "WHOIS alice")
 	line(a, "WHOIS bob")
 	line(a, "LIST")
+	// a member of more channels than one reply line holds (the list of WHOIS passes 510 bytes): whatever
+	// the server does with the overflow, every replica has to do the same
+	for lo := 1; lo <= 18; lo += 6 {
+		var cs []string
+		for k := lo; k < lo+6; k++ {
+			cs = append(cs, fmt.Sprintf("#w%02d-a-long-channel-name", k))
+		}
+		line(a, "JOIN "+strings.Join(cs, ","))
+	}
+	line(b, "WHOIS alice")
 	line(b, "JOIN 0") // not a channel name (some servers read it as "leave everything")
 	if r.Intn(2) == 0 {
 		// the operators lower the channel limit below the number of channels that exist: nothing is
